@@ -183,7 +183,7 @@ def _interact_harness(c, mode, k=2):
     trgn = TRGF.at(n) if mode == "sym" else TRGF.concrete(k)
     if mode == "sym":
         it.loopspecs = {
-            (I + ":WorkingFrame.intercept", 0): LoopSpec(closed=lambda it_, env, i: {"rval": SVal(RV.at(i))}, ghost=lambda it_, env, i: LG.at(i),
+            (I + ":WorkingFrame.intercept", 0): LoopSpec(closed=lambda it_, env, i: {"@carried": SVal(RV.at(i))}, ghost=lambda it_, env, i: LG.at(i),
                                                         axioms=lambda it_, env, i: LG.axioms(i) + RV.axioms(i)),
             (I + ":WorkingFrame.log", 0): LoopSpec(ghost=lambda it_, env, i: LOGF.at(i), axioms=lambda it_, env, i: LOGF.axioms(i)),
             (I + ":WorkingFrame.trigger", 0): LoopSpec(ghost=lambda it_, env, i: TRGF.at(i), axioms=lambda it_, env, i: TRGF.axioms(i)),
